@@ -80,7 +80,46 @@ fn check_pair(a: &[i64], b: &[i64], what: &str, rep: &mut Report) {
     }
 }
 
+/// Operands whose TRANSFORM has a single non-zero slot (b = c * intt(e_i): a dense geometric
+/// sequence in the coefficient domain), and transforms with a few non-zero slots: pointwise
+/// products then meet vectors that look like "constants" or "low-degree polynomials" to code
+/// that inspects a transform-domain vector with coefficient-domain notions (degree, is_zero).
+fn one_slot_operands(ctx: &Ctx, rep: &mut Report) {
+    use rand::Rng;
+    let sizes: Vec<usize> = (1..=10).map(|k| 1usize << k).collect();
+    let r = par_for(sizes.len(), ncpu(), |si, rep| {
+        let n = sizes[si];
+        let mut rng = rng_for(ctx.seed, &format!("c11-oneslot-{}", n));
+        let mut slots: Vec<usize> = vec![0, 1, n / 2, n - 1];
+        for _ in 0..ctx.sz(4, 60) {
+            slots.push(rng.gen_range(0..n));
+        }
+        for &i in &slots {
+            for c in [1i64, 2, Q - 1, rng.gen_range(1..Q)] {
+                let mut e = vec![0i16; n];
+                e[i] = c as i16;
+                // a second variant with two non-zero slots
+                let mut e2 = e.clone();
+                e2[(i + 1) % n] = rng.gen_range(1..Q) as i16;
+                for t in [e, e2] {
+                    let b: Vec<i64> = match monitored(move || vh::intt(&t)) {
+                        Ok(v) => v.iter().map(|&x| x as i64).collect(),
+                        Err(_) => continue,
+                    };
+                    let a: Vec<i64> = (0..n).map(|_| rng.gen_range(0..Q)).collect();
+                    check_pair(&a, &b, "second operand with a one- or two-slot transform", rep);
+                    check_pair(&b, &a, "first operand with a one- or two-slot transform", rep);
+                    rep.count("operands_with_few_slot_transforms", 1);
+                }
+            }
+        }
+    });
+    rep.merge(r);
+}
+
 pub fn products(ctx: &Ctx, rep: &mut Report) {
+    one_slot_operands(ctx, rep);
+    rep.require("operands_with_few_slot_transforms", 200);
     let nrand = ctx.sz(2500, 250_000);
     let r = par_for(11, ncpu(), |k, rep| {
         let n = 1usize << k;
